@@ -69,6 +69,7 @@ class Inst(Val):
     late_writes: dict = field(default_factory=dict)  # field -> [(value, fi, node)] stored after construction
     made_at: tuple | None = None  # (fi, node) of the constructor call
     constructing: bool = False
+    born: tuple | None = None  # the path conditions under which the object was created (they hold whenever it exists)
 
 
 @dataclass(eq=False)
@@ -593,9 +594,39 @@ class Interp:
                 c = om.constants[attr]
                 if isinstance(c, ast.Constant):
                     return Const(c.value)
-                return Sym(("global", fq))
+                return self.module_table(om, attr, fq)
             return Sym(("lib", fq))
         return Sym(("builtin", name))
+
+    def module_table(self, om, attr: str, fq: str) -> Val:
+        """Value of a module-level name bound once to a *literal table*: tuples / lists / sets / dicts (also wrapped in `tuple(..)`,
+        `frozenset(..)`, ...) of constants, classes, functions, lambdas and other such names.  Code that walks a table of
+        (class, predicate) pairs or looks a handler up in a dict is then followed like the unrolled code.  Anything else stays
+        an opaque global."""
+        c = om.constants[attr]
+        busy = self.__dict__.setdefault("_table_busy", set())
+        if fq in busy or not _literal_table(c):
+            return Sym(("global", fq))
+        if sum(1 for st in om.tree.body for t in (st.targets if isinstance(st, ast.Assign) else [st.target] if isinstance(st, (ast.AnnAssign, ast.AugAssign)) else []) if isinstance(t, ast.Name) and t.id == attr) != 1:
+            return Sym(("global", fq))  # rebound at module level: not a constant
+        busy.add(fq)
+        try:
+            probe = FuncInfo(name="<module>", qualname="<module>", node=ast.Lambda(args=ast.arguments(posonlyargs=[], args=[], kwonlyargs=[], kw_defaults=[], defaults=[]), body=ast.Constant(value=None)), module=om, cls=None)
+            saved, self.path = self.path, []  # module level: evaluated once, under no condition
+            try:
+                return self.eval(c, Frame(probe, {}, None, None, 0))
+            finally:
+                self.path = saved
+        finally:
+            busy.discard(fq)
+
+    def lambda_func(self, e: ast.Lambda, fr: Frame) -> FuncInfo:
+        """FuncInfo of a lambda: the loader's (lambdas inside functions) or a synthetic one (module / class level tables)."""
+        fi = getattr(e, "_func", None) or getattr(e, "_absint_func", None)
+        if fi is None:
+            fi = FuncInfo(name="<lambda>", qualname=f"<lambda@{getattr(e, 'lineno', 0)}:{getattr(e, 'col_offset', 0)}>", node=e, module=fr.fi.module, cls=None)
+            e._absint_func = fi  # type: ignore[attr-defined]
+        return fi
 
     # ------------------------------------------------------------------ expressions
     def eval(self, e: ast.expr, fr: Frame) -> Val:
@@ -684,7 +715,7 @@ class Interp:
         if isinstance(e, ast.Subscript):
             return self.subscript(self.eval(e.value, fr), e.slice, fr, e)
         if isinstance(e, ast.Lambda):
-            return Fn(getattr(e, "_func"), None, fr) if hasattr(e, "_func") else Sym(("lambda", ast.unparse(e)[:40]))
+            return Fn(self.lambda_func(e, fr), None, fr)
         if isinstance(e, ast.JoinedStr):
             parts = []
             for p in e.values:
@@ -751,7 +782,10 @@ class Interp:
             if g == FALSE:
                 continue
             if isinstance(v, Alt):
-                flat += [(f_and([g, g2]), v2) for g2, v2 in v.options]
+                for g2, v2 in v.options:
+                    gg = self.simp(f_and([g, g2])) if g != TRUE else g2
+                    if gg != FALSE:
+                        flat.append((gg if gg == TRUE else f_and([g, g2]), v2))
             else:
                 flat.append((g, v))
         if not flat:
@@ -834,6 +868,11 @@ class Interp:
                 return Sym(("reversed", v.term))
             return Sym(("slice", term_of(v)))
         idx = self.eval(sl, fr)
+        if isinstance(idx, BoolF) and isinstance(v, (Tup, DictV, Coll)):
+            # a two-way table selected by a condition: `("objects", "subjects")[flag]`, `{True: a, False: b}[flag]`
+            return self.mk_alt([(idx.f, self._index_const(v, True, node)), (f_not(idx.f), self._index_const(v, False, node))])
+        if isinstance(idx, Alt) and all(isinstance(o, Const) for _g, o in idx.options) and isinstance(v, (Tup, DictV, Coll)):
+            return self.mk_alt([(g, self._index_const(v, o.value, node)) for g, o in idx.options])
         if isinstance(v, Tup) and isinstance(idx, Const) and isinstance(idx.value, int) and -len(v.items) <= idx.value < len(v.items):
             return v.items[idx.value]
         if isinstance(v, DictV):
@@ -852,6 +891,16 @@ class Interp:
                 return Sym(("attr", v.term[1], ("dyn", ti)))
             return Sym(("index", v.term, ti))
         return Sym(("index", term_of(v), term_of(idx)))
+
+    def _index_const(self, v: Val, key: object, node: ast.AST) -> Val:
+        """`v[key]` for a concrete key of a modelled tuple / list / dict."""
+        if isinstance(v, DictV):
+            hits = [x for k, x, g in v.entries if isinstance(k, Const) and k.value == key and type(k.value) is type(key) and g == TRUE]
+            return hits[-1] if hits else Sym(("index", term_of(v), ("const", repr(key))))
+        items = list(v.items) if isinstance(v, Tup) else [x for x, g in v.entries if g == TRUE] if all(g == TRUE for _x, g in v.entries) else []  # type: ignore[union-attr]
+        if isinstance(key, (bool, int)) and -len(items) <= int(key) < len(items):
+            return items[int(key)]
+        return Sym(("index", term_of(v), ("const", repr(key))))
 
     # ------------------------------------------------------------------ attributes
     def getattr(self, v: Val, attr: str, node: ast.AST | None, fr: Frame | None) -> Val:
@@ -950,8 +999,13 @@ class Interp:
                 self.path.pop()
             return
         if isinstance(obj, Inst):
-            # a store under a symbolic condition keeps the old value as an alternative
-            g = self.guard()
+            # a store under a symbolic condition keeps the old value as an alternative; conditions that already held when the
+            # object was created hold whenever it exists: only what was established since then makes the store conditional
+            born = obj.born
+            if born is not None and tuple(self.path[: len(born)]) == born:
+                g = f_and(list(self.path[len(born):]))
+            else:
+                g = self.guard()
             if g != TRUE and attr in obj.fields and g != FALSE:
                 value = self.mk_alt([(g, value), (f_not(g), obj.fields[attr])])
             obj.fields[attr] = value
@@ -1116,7 +1170,7 @@ class Interp:
         init = self.repo.lookup_method(ci, "__init__")
         is_dc = any(c.is_dataclass for c in self.repo.mro(ci))
         if init is not None and self.descend(init):
-            inst = Inst(ci, {}, self.serial(), made_at=(fr.fi if fr else None, node))
+            inst = Inst(ci, {}, self.serial(), made_at=(fr.fi if fr else None, node), born=tuple(self.path))
             self.instances.append(inst)
             inst.constructing = True
             self.invoke(init, inst, args, kwargs, None, node, fr)
@@ -1124,7 +1178,7 @@ class Interp:
             self.events.append(Event("new", ci.name, inst, list(args), dict(kwargs), self.guard(), node, fr.fi if fr else None, inst))
             return inst
         if init is None and (is_dc or any(c.ann_attrs for c in self.repo.mro(ci))) and self.descend_class(ci):
-            inst = Inst(ci, {}, self.serial(), made_at=(fr.fi if fr else None, node))
+            inst = Inst(ci, {}, self.serial(), made_at=(fr.fi if fr else None, node), born=tuple(self.path))
             self.instances.append(inst)
             names: list[str] = []
             for c in reversed(self.repo.mro(ci)):
@@ -1373,7 +1427,7 @@ class Interp:
         if isinstance(base, Alt):
             return self.mk_alt([(g, self._replace(o, overrides, node, fr) if isinstance(o, (Inst, Alt)) else Sym(("replace", term_of(o)))) for g, o in base.options])
         assert isinstance(base, Inst)
-        new = Inst(base.cls, dict(base.fields), self.serial(), made_at=(fr.fi if fr else None, node))
+        new = Inst(base.cls, dict(base.fields), self.serial(), made_at=(fr.fi if fr else None, node), born=tuple(self.path))
         new.copied_from = base  # type: ignore[attr-defined]
         new.overridden = set(overrides)  # type: ignore[attr-defined]
         for k, v in overrides.items():
@@ -1703,6 +1757,26 @@ def _own(fn: ast.AST):
     if isinstance(fn, ast.Lambda):
         return []
     return own_nodes(fn)
+
+
+_TABLE_WRAPPERS = {"tuple", "list", "set", "frozenset", "dict"}
+
+
+def _literal_table(e: ast.expr) -> bool:
+    """A display of constants, names, attribute chains, lambdas and nested displays (see Interp.module_table)."""
+    if isinstance(e, (ast.Constant, ast.Lambda, ast.Name)):
+        return True
+    if isinstance(e, ast.Attribute):
+        return _literal_table(e.value)
+    if isinstance(e, ast.JoinedStr):
+        return all(isinstance(p, ast.Constant) or (isinstance(p, ast.FormattedValue) and _literal_table(p.value)) for p in e.values)
+    if isinstance(e, (ast.Tuple, ast.List, ast.Set)):
+        return all(_literal_table(x.value if isinstance(x, ast.Starred) else x) for x in e.elts)
+    if isinstance(e, ast.Dict):
+        return all((k is None or _literal_table(k)) and _literal_table(v) for k, v in zip(e.keys, e.values))
+    if isinstance(e, ast.Call) and isinstance(e.func, ast.Name) and e.func.id in _TABLE_WRAPPERS and not e.keywords:
+        return all(_literal_table(a) for a in e.args)
+    return False
 
 
 def _as_load(t: ast.expr) -> ast.expr:
